@@ -127,7 +127,13 @@ func call(w int, op string, f func() error) {
 func writeResult() {
 	resMu.Lock()
 	defer resMu.Unlock()
-	b, _ := json.MarshalIndent(res, "", " ")
+	// the counters are updated atomically by workers that may still be running (hang path): copy them atomically
+	snap := *res
+	snap.Calls = map[string]*callStat{}
+	for k, c := range res.Calls {
+		snap.Calls[k] = &callStat{N: atomic.LoadInt64(&c.N), Ret: atomic.LoadInt64(&c.Ret), Err: atomic.LoadInt64(&c.Err), Panic: atomic.LoadInt64(&c.Panic)}
+	}
+	b, _ := json.MarshalIndent(&snap, "", " ")
 	os.WriteFile(outPath+".tmp", b, 0644)
 	os.Rename(outPath+".tmp", outPath)
 }
